@@ -337,7 +337,27 @@ func (w *window) eval(c Case, res *ev.Result, lc *local) {
 			Msg: fmt.Sprintf("%s(addr %d, len %d, order %d) on window [%d,+%d) rewrote the response payload", c.Acc, c.Addr, c.Len, c.Order, c.Start, c.Count), Case: c})
 		copy(w.data, w.pristine)
 	}
-	want, ok := expect(w.w, c)
+	var want any
+	var ok bool
+	// a bare word-order flag (LowWordFirst = 4 / HighWordFirst = 8 without a byte order): the library exports these
+	// constants but does not say which byte order goes with them, so both readings are accepted - big-endian bytes, or
+	// the byte order of the view's default - as long as the *word* order is the selected one
+	var wantAlt any
+	hasAlt := false
+	if c.Order == spec.OrdLowWordFirst || c.Order == spec.OrdHighWordFirst {
+		c1, c2 := c, c
+		c1.Order = spec.OrdBE | c.Order
+		def := c.Default
+		if def == 0 {
+			def = spec.DefaultOrder
+		}
+		c2.Order = (def & 3) | c.Order
+		want, ok = expect(w.w, c1)
+		wantAlt, _ = expect(w.w, c2)
+		hasAlt = true
+	} else {
+		want, ok = expect(w.w, c)
+	}
 	width := "16"
 	switch {
 	case c.Acc[0] == 'S':
@@ -358,7 +378,7 @@ func (w *window) eval(c Case, res *ev.Result, lc *local) {
 		res.Violate(ev.Violation{Check: "acc", Kind: "panic", Attrs: attrs, Msg: fmt.Sprintf("%+v panicked: %s", c, o.pan), Case: c})
 	case ok && o.err != nil:
 		res.Violate(ev.Violation{Check: "acc", Kind: "rejects-inside", Attrs: attrs, Msg: fmt.Sprintf("%+v: all registers lie inside the window [%d,%d) but got error %v", c, c.Start, c.Start+c.Count, o.err), Case: c})
-	case ok && !equalVal(o.val, want):
+	case ok && !equalVal(o.val, want) && !(hasAlt && equalVal(o.val, wantAlt)):
 		res.Violate(ev.Violation{Check: "acc", Kind: "wrong-value", Attrs: attrs, Msg: fmt.Sprintf("%+v: got %#v want %#v", c, o.val, want), Case: c})
 	case !ok && o.err == nil:
 		res.Violate(ev.Violation{Check: "acc", Kind: "accepts-outside", Attrs: attrs, Msg: fmt.Sprintf("%+v: registers not all inside the window [%d,%d) but got value %#v", c, c.Start, c.Start+c.Count, o.val), Case: c})
@@ -385,6 +405,11 @@ func (w *window) sweepAddr(addr int, allLens bool, res *ev.Result, lc *local) {
 	}
 	for _, a := range []string{"Uint16", "Int16", "Uint32", "Int32", "Float32", "Uint64", "Int64", "Float64"} {
 		w.eval(Case{Acc: a, Addr: addr}, res, lc)
+	}
+	for _, o := range []uint8{spec.OrdLowWordFirst, spec.OrdHighWordFirst} { // bare word-order flags
+		for _, a := range []string{"Uint32WithByteOrder", "Int32WithByteOrder", "Float32WithByteOrder", "Uint64WithByteOrder", "Int64WithByteOrder", "Float64WithByteOrder"} {
+			w.eval(Case{Acc: a, Addr: addr, Order: o}, res, lc)
+		}
 	}
 	for _, o := range orders7 {
 		for _, a := range []string{"DoubleRegister", "QuadRegister", "Uint32WithByteOrder", "Int32WithByteOrder", "Float32WithByteOrder", "Uint64WithByteOrder", "Int64WithByteOrder", "Float64WithByteOrder"} {
